@@ -243,6 +243,9 @@ CORES = [
     ("sql", "from t | @I@select {d = (date.to_text c d)}"),
     ("sql", "from t | @I@derive {x = (a | date.to_text \"%q\")}"),
     ("sql", "prql target:sql.mssql\nfrom t | @I@derive {x = (a | date.to_text \"%q\")}"),
+    ("sql", "prql target:sql.duckdb\nfrom t | @I@derive {x = (a | date.to_text \"é%_j\")}"),
+    ("sql", "prql target:sql.duckdb\nfrom t | @I@derive {x = (a | date.to_text \"\\\"I\\\" of %d day %_j\")}"),
+    ("sql", "prql target:sql.duckdb\nfrom t | @I@derive {x = (a | date.to_text r\"%d-%_j\")}"),
     ("sql-nospan", "from s\"x\""),
     ("sql-nospan", "prql target:sql.sqlite\nfrom a | @I@remove b"),
 ]
@@ -333,6 +336,7 @@ def named_text(reason, stage):
        lastseg   X is a resolved path (this.t.a): its last segment is the last segment of the span's text
        literal   X is a literal as printed (quotes may differ)
        word      the span's text contains X as a word      suffix   ... contains a dotted suffix of X
+       format-spec  the span is the format literal or begins at a `%` specifier
        lex-eoi   empty span at the end of the file         parse-eoi  nothing but trivia after the span end"""
     r = reason or ""
     if r == "unexpected end of input":
@@ -359,6 +363,8 @@ def named_text(reason, stage):
     m = re.match(r"^`([\w.]+)` only supports", r)
     if m:
         return ("suffix", m.group(1))
+    if r.startswith("PRQL doesn't support this format specifier"):
+        return ("format-spec", "")
     m = re.match(r"^unexpected `.*internal ([\w.]+)`$", r, re.S)
     if m:
         return ("lastseg", m.group(1))
@@ -404,6 +410,9 @@ def content_holds(rel, x, text, s, e):
         return under.strip("\"'") == x.strip("\"'")
     if rel == "word":
         return re.search(r"(?<![\w.])" + re.escape(x) + r"(?![\w])", under) is not None
+    if rel == "format-spec":
+        # "this format specifier": the whole format literal (it begins at its quote / raw prefix) or a stretch that begins AT a specifier
+        return under[:1] == "%" or under.lstrip("rR")[:1] in ("\"", "'")
     if rel == "suffix":
         parts = x.split(".")
         return any(".".join(parts[i:]) in under for i in range(len(parts)))
@@ -674,6 +683,8 @@ TRIV_BASES = [
     ("sql", "from t ¦ select {d = (date.to_text c d)}"),
     ("sql", "from t ¦ derive {x = (a | date.to_text \"%q\")}"),
     ("sql", "prql target:sql.mssql\nfrom t ¦ derive {x = (a | date.to_text \"%q\")}"),
+    ("sql", "prql target:sql.duckdb\nfrom t ¦ derive {x = (a | date.to_text \"€%d é%_j\")}"),
+    ("sql", "prql target:sql.duckdb\nfrom t ¦ derive {x = (a | date.to_text \"\\t%d\\t%_j\")}"),
 ]
 # multi-file trees: (class, [(path, template)], file holding the error)
 TRIV_TREES = [
